@@ -255,8 +255,7 @@ def asm_rule(ctx: Ctx, rid: str = "R19.asm") -> None:
     r.check("for linenumber, line, tokens in self.text" in txt or "in self.text:" in txt, "ToyParser._load_instructions|order", li.loc(),
             "instructions are not collected by iterating self.text in order")
     # memory-size checks
-    raises = [n for n in ast.walk(p.node) if isinstance(n, ast.Raise) and isinstance(n.exc, ast.Call) and ast.unparse(n.exc.func) == "MemorySizeException"]
-    r.check(len(raises) >= 2, "ToyParser|MemorySizeException", p.loc(), f"only {len(raises)} MemorySizeException site(s): program/data overflow unchecked")
+    # (which exception type rejects an oversized program is C15's clause)
     r.check("len(instructions) - 1 > self.last_address_not_used_by_data" in txt, "ToyParser._load_instructions|overflow", li.loc(),
             "the program/data collision check is gone or changed")
     # label pass
@@ -278,7 +277,7 @@ def asm_rule(ctx: Ctx, rid: str = "R19.asm") -> None:
     r.check("self.last_address_not_used_by_data -= len(values_to_write)" in dtxt and "write_address = self.last_address_not_used_by_data + 1" in dtxt
             and "write_address += 1" in dtxt, "ToyParser._write_data|downward", wd.loc(),
             "variables are not allocated downward with ascending elements")
-    r.check("if write_address < 0: raise MemorySizeException" in dtxt, "ToyParser._write_data|overflow", wd.loc(), "data overflow is not rejected")
+    r.check("if write_address < 0: raise " in dtxt, "ToyParser._write_data|overflow", wd.loc(), "data overflow is not rejected")
     # parse order: labels before data and instructions, so segment order is irrelevant
     pa = m.method(p, "parse", own=True)
     order = [c.func.attr for c in calls_in(pa.node) if isinstance(c.func, ast.Attribute) and c.func.attr.startswith("_")]
